@@ -136,6 +136,22 @@ func Universe(name string, size string, seed int64) []RawKey {
 		u = append(u, rp(p10+"xy"), rp(p10+"xZa"), rp(p10+"xyg"), rp(p10+"x"), rp(p10), rp(p10+"y"))
 		return u
 
+	case "huge":
+		// keys of 255, 256, 257 and 300 bytes below shared paths of 254 and 256 bytes: lengths and depths around one byte's range
+		P := strings.Repeat("abcdefgh", 40)[:300]
+		return []RawKey{
+			rk(P[:254] + "a"), rk(P[:254] + "b"), rk(P[:255] + "x"), rk(P[:256] + "y"), rk(P[:256] + "z"), rk(P[:299] + "q"), rk(P),
+			rp(P[:254]), rp(P[:255]), rp(P[:256]), rp(P[:100]), rp(P[:254] + "c"), rp(P[:256] + "w"), rp(P + "0"),
+		}
+
+	case "giant":
+		// keys of 65535, 65536 and 65537 bytes below shared paths of 65534 and 65536 bytes (two bytes' range)
+		Q := strings.Repeat("0123456789abcdef", 4200)[:66000]
+		return []RawKey{
+			rk(Q[:65534] + "a"), rk(Q[:65534] + "b"), rk(Q[:65535] + "c"), rk(Q[:65536] + "d"), rk(Q[:65536] + "e"), rk("short"),
+			rp(Q[:65535]), rp(Q[:65536]), rp(Q[:300]), rp(Q[:65534] + "c"),
+		}
+
 	case "lfan20":
 		// twenty continuations below a 12-byte shared path: the branch point below an optimistic (longer than inline)
 		// path goes 4 -> 16 -> 48 slots and back, so every resize has to carry the true path length along
